@@ -171,7 +171,7 @@ def functions(E):
 
 def harnesses(tier):
     q = tier == "quick"
-    T = 600 if q else 2400
+    T = 600 if q else 900
     hs = []
     for k, a, w in ([(2, 2, 3), (3, 1, 2)] if q else [(3, 2, 3), (4, 1, 3)]):
         hs.append(H("diagrams_k%d_a%d" % (k, a), diagrams, dict(k=k, a=a, w=w),
